@@ -13,7 +13,7 @@ from checks import corpus, gen
 from checks.tpl import StmtOb, choose_free, make_names, reentrant_slots, validity_assumptions
 from lx.check import Verdict
 from lx.engine import SymStr, sym_value
-from lx.lifted import LiftedScript, dump_runner, set_eq
+from lx.lifted import LiftedScript, dump_runner, set_eq, twin_runner
 from lx.tree import PLACEHOLDER
 
 PID = "C18"
@@ -146,7 +146,7 @@ class ExportOb(StmtOb):
         validity_assumptions(self.st, self.val(names))
         lr = self.script.runner(names)
         d = dump_runner(lr)
-        why = analyse(lr)
+        why = analyse(twin_runner(lr, paths=False))
         return Verdict(why is None, {"names": names, "lifted": d, "expected": None, "extra": {"why": why}},
                        self.region(why, lr) if why else None)
 
@@ -203,7 +203,7 @@ class ChainExportOb(ExportOb):
         names = self.names()
         lr = self.script.runner(names)
         d = dump_runner(lr)
-        why = analyse(lr)
+        why = analyse(twin_runner(lr, paths=False))
         return Verdict(why is None, {"names": names, "lifted": d, "expected": None, "extra": {"why": why}},
                        region(why, lr) if why else None)
 
@@ -231,7 +231,7 @@ class RawExportOb(ExportOb):
         names = self.names()
         lr = self.script.runner(names)
         d = dump_runner(lr)
-        why = analyse(lr)
+        why = analyse(twin_runner(lr, paths=False))
         return Verdict(why is None, {"names": names, "lifted": d, "expected": None, "extra": {"why": why}},
                        region(why, lr) if why else None)
 
